@@ -240,7 +240,11 @@ def _check_page(X, body: bytes, status: int, token: str, where: str):
 
 def _token(X, marks):
     a, b = X.choose("c1", marks), X.choose("c2", marks)
-    return "Zq" + a + b + "Qz"
+    # optionally a long tail: error messages of several kB must be escaped exactly like short ones
+    pad = X.choose("padding", [0, 5000])
+    if pad:
+        X.reach("long-message")
+    return "Zq" + a + b + "Qz" + "p" * pad
 
 
 H1_SCENARIOS = ["bad-http-version", "bad-scheme", "bad-authority", "header-line-without-colon", "bad-content-length", "invalid-header-name", "no-host",
